@@ -41,6 +41,11 @@ type Knobs struct {
 
 type ReqFault struct {
 	Kind string `json:"kind,omitempty"` // "" | cut | readerr | abort | wbreak
+	// When biases abort/wbreak towards an instant with in-flight state:
+	// "" (any step after arming) | recv (handler blocked in Recv on an empty
+	// body) | send (handler blocked in Send on a stalled connection) | early
+	// (before the handler was entered)
+	When string `json:"when,omitempty"`
 }
 
 type ReqSpec struct {
@@ -60,6 +65,7 @@ type ReqSpec struct {
 	ZeroReads bool        `json:"zero_reads,omitempty"`
 	EOFData   bool        `json:"eof_data,omitempty"`
 	Weight    int         `json:"weight,omitempty"`
+	CWeight   int         `json:"client_weight,omitempty"` // scheduler weight of the client task (default: Weight)
 	WSClose   string      `json:"ws_close,omitempty"` // normal | none | away
 	Backend   string      `json:"backend,omitempty"`  // proxied through this backend ("" = local)
 	MD        [][2]string `json:"md,omitempty"`       // extra request metadata
@@ -410,14 +416,32 @@ var errTransport = fmt.Errorf("sim: transport error on request stream")
 type armed struct {
 	sim  *core.Sim
 	step int
+	r    *reqState
 }
 
 //go:norace
-func (a armed) Enabled(int) bool { return a.sim.StepNo() >= a.step }
+func (a armed) Enabled(int) bool {
+	if a.sim.IdleNow() {
+		return true
+	}
+	if a.sim.StepNo() < a.step {
+		return false
+	}
+	r := a.r
+	switch r.spec.Fault.When {
+	case "recv":
+		return (r.hlog.mInRecv || r.blog.mInRecv) && r.q.mReadPark && r.q.mIn == 0 && !r.q.mInEOF
+	case "send":
+		return (r.hlog.mInSend || r.blog.mInSend) && r.q.mWritePark && r.q.mWindow > 0 && r.q.mOut-r.q.mConsumed >= r.q.mWindow
+	case "early":
+		return !r.hlog.mEntered
+	}
+	return true
+}
 
 func (r *reqState) faultTask(armStep int) {
 	defer r.setFaultDone()
-	if !r.fSlot.Yield("f."+r.spec.Fault.Kind, armed{r.sim, armStep}, opFault) {
+	if !r.fSlot.Yield("f."+r.spec.Fault.Kind, armed{r.sim, armStep, r}, opFault) {
 		return
 	}
 	r.abortedAt = r.sim.StepNo()
@@ -601,7 +625,11 @@ func runMuxScenario(t *testing.T, sc *MuxScenario, tape *core.Tape) *muxRun {
 			rs.q = newReqIO(sim, sp.ID, name, w)
 			rs.q.zeroReads, rs.q.eofData, rs.q.window = sp.ZeroReads, sp.EOFData, sp.Window
 			rs.q.sync()
-			rs.cSlot = sim.NewSlot(name+".client", w)
+			cw := w
+			if sp.CWeight > 0 {
+				cw = sp.CWeight
+			}
+			rs.cSlot = sim.NewSlot(name+".client", cw)
 			rs.sSlot = sim.NewSlot(name+".srv", w)
 			rs.hSlot = sim.NewSlot(name+".h", w)
 			if sp.Backend != "" {
@@ -661,6 +689,9 @@ func runMuxScenario(t *testing.T, sc *MuxScenario, tape *core.Tape) *muxRun {
 		}
 		if len(sc.Clock) > 0 {
 			cp := &core.ClockPlan{Weight: 2}
+			if sc.Note == "deadline" {
+				cp.Gate = &mr.reqs[0].hlog // only once the handler waits on its context
+			}
 			for _, ns := range sc.Clock {
 				cp.Jumps = append(cp.Jumps, time.Duration(ns))
 			}
